@@ -162,7 +162,7 @@ theorem itemrefs_wf {E : Env} {w : Ctx → Node → St → St} (ih : WWf E w) (d
   intro s ref _ hs
   unfold itemrefStep
   repeat' split
-  all_goals first | exact hs | exact ih _ _ _ hs
+  all_goals first | exact hs | exact ih _ _ _ (fun t ht => hs t ht)
 
 theorem expand_wf {E : Env} {w : Ctx → Node → St → St} (ih : WWf E w) (doc : Node) (ctx : Ctx) (n : Node)
     (a : ItemAttrs) (next : Subj) (st : St) (h : AllWf E st) : AllWf E (expandItem E w doc ctx n a next st) := by
